@@ -221,12 +221,18 @@ class ASEEngine(EngineBase):
             atoms = atoms[0]
         kin_old = atoms.get_kinetic_energy()
 
-        MaxwellBoltzmannDistribution(atoms, temperature_K=self.temperature)
-        kin_new = atoms.get_kinetic_energy()
+        # draw from the job's own random stream, not numpy's global one
+        MaxwellBoltzmannDistribution(
+            atoms,
+            temperature_K=self.temperature,
+            rng=getattr(self, "rgen", None),
+        )
         if vel_settings.get("zero_momentum", False):
             # TODO: should we preserve temperature or not?
             # The other engines do not bother to preserve the temperature
             Stationary(atoms, preserve_temperature=False)
+        # the kinetic energy of the velocities we actually write
+        kin_new = atoms.get_kinetic_energy()
 
         conf_out = os.path.join(self.exe_dir, "genvel.traj")
         atoms.write(conf_out)
